@@ -665,12 +665,16 @@ def run_reference(prog, argv, ws=2, checked=True, budget=200_000, max_flips=5000
     script = []
     total = 0
     flips = 0
+    wrapped_spec = 0        # wrap-arounds on abandoned (speculative) executions: they influenced which choices were taken
     while True:
         it = Interp(prog, argv, ws, checked, script, budget - total, stack_words)
+        if wrapped_spec:
+            it.stats['wrapped'] = it.stats.get('wrapped', 0) + wrapped_spec
         try:
             kind = it.run()
         except Halt:
             total += it.steps
+            wrapped_spec = it.stats.get('wrapped', 0)
             # flip the most recent default choice
             k = it.ci - 1
             while k >= 0 and script[k]:
